@@ -44,7 +44,6 @@ func (j *JWorld) JRunStoredJobSync(id string) (panicked string, err error) {
 	return runJob(jb), nil
 }
 
-
 // failSource fails at its n-th read (a source that goes away in the middle of a run).
 type failSource struct {
 	inner  jobSource.Source
